@@ -133,7 +133,7 @@ def run(ctx: Ctx) -> Result:
     # busy seconds around the integer constants of the module (and, thorough, around 2^16 and 10^5)
     if ctx.replay is None:
         consts = sorted(set(source_constants() + ([65536, 100000] if ctx.thorough else [])))
-        v = busy_violation(consts, res) or jump_violation(source_constants(), res, 7 if ctx.thorough else 6)
+        v = busy_violation(consts, res) or jump_violation(source_constants(big=True), res, 7 if ctx.thorough else 6)
         res.add_case({'busy_seconds_around': consts})
         res.count('busy_second_scripts', 7 * 2 * len(consts))
         if v is not None:
@@ -409,7 +409,7 @@ def threaded_ids(nthreads, per, rng, perturb=False):
         event_id_mod.time = old
 
 
-def source_constants():
+def source_constants(big=False):
     """integer literals of the generator's module (a bound on the counter, a modulus, a width …): the request counts at
     which the generator could start to behave differently"""
     import ast
@@ -450,7 +450,27 @@ def source_constants():
         v = fold(n) if isinstance(n, (ast.Constant, ast.BinOp)) else None
         if v is not None and 2 <= abs(v) <= 2_000_000:
             out.add(abs(v))
-    return sorted(out)
+    # … and the numbers the IMPORTED module holds, however they were computed (timedelta(days=365).total_seconds(), a value
+    # read from another module …): module globals, class attributes, attributes of a fresh generator
+    try:
+        import datetime
+        import bobocep.cep.gen.event_id as mod
+        holders = [vars(mod)] + [vars(c) for c in vars(mod).values() if isinstance(c, type) and c.__module__ == mod.__name__]
+        for c in vars(mod).values():
+            if isinstance(c, type) and c.__module__ == mod.__name__ and not getattr(c, '__abstractmethods__', None):
+                try:
+                    holders.append(vars(c()))
+                except Exception:   # noqa
+                    pass
+        for h in holders:
+            for v in h.values():
+                if isinstance(v, datetime.timedelta):
+                    v = v.total_seconds()
+                if isinstance(v, (int, float)) and not isinstance(v, bool) and v == v and 2 <= abs(v) <= 10 ** 12:
+                    out.add(int(abs(v)))
+    except Exception:   # noqa
+        pass
+    return sorted(v for v in out if big or v <= 2_000_000)
 
 
 def unrle(rle):
@@ -512,7 +532,7 @@ def search(ctx: Ctx) -> Result:
     """failing-input search on the real code alone: busy seconds around every integer constant of the module and around
     2^16 / 10^5, then all step sequences over {-2..2} up to length 8."""
     res = Result()
-    v = busy_violation(sorted(set(source_constants() + [65536, 100000])), res) or jump_violation(source_constants(), res, 8)
+    v = busy_violation(sorted(set(source_constants() + [65536, 100000])), res) or jump_violation(source_constants(big=True), res, 8)
     if v is not None:
         res.violations.append(v)
         return res
